@@ -395,6 +395,7 @@ class MemoryCache(CacheMixin):
 
     def __init__(self):
         self.storage = {}
+        self.metadata_only = set()  # keys that only have metadata (no data stored yet)
 
     @classmethod
     def from_config(cls, config):
@@ -402,11 +403,12 @@ class MemoryCache(CacheMixin):
 
     def clean(self):
         self.storage = {}
+        self.metadata_only = set()
 
     def get(self, key):
         state = self.storage.get(key)
 
-        if state is None:
+        if state is None or key in self.metadata_only:
             return None
         else:
             if state.metadata.get("status") != "ready":
@@ -425,11 +427,14 @@ class MemoryCache(CacheMixin):
             return None
         state.metadata["status"] = "ready"
         self.storage[state.query] = state.clone()
+        self.metadata_only.discard(state.query)
         return True
 
     def store_metadata(self, metadata):
         key = metadata["query"]
-        self.storage[key] = self.storage.get(key, State())
+        if key not in self.storage:
+            self.storage[key] = State()
+            self.metadata_only.add(key)
         self.storage[key].metadata = metadata
 
         return True
@@ -437,6 +442,7 @@ class MemoryCache(CacheMixin):
     def remove(self, key):
         if key in self.storage:
             del self.storage[key]
+        self.metadata_only.discard(key)
         return True
 
     def contains(self, key):
